@@ -1,6 +1,6 @@
 //go:build verif
 
-package semver
+package github
 
 // Machine-checked contracts for this package (checked by /verif/govc; see /verif/DESIGN.md).
 // This file contains comments only; it is compiled only under the build tag "verif".
@@ -8,10 +8,10 @@ package semver
 //@ func compareInt
 //@   comparator a ~ b                                     [C01]
 //@   ensures result == 0 ==> a == b                       [C01]
-//@   ensures result == (a < b ? -1 : (a > b ? 1 : 0))     [C03 C08]
+//@   ensures result == (a < b ? -1 : (a > b ? 1 : 0))     [C03]
 
-//@ func comparePrerelease
-//@   comparator a ~ b                                     [C01]
+//@ func compareQualifiers
+//@   comparator (q1, n1) ~ (q2, n2)                       [C01]
 
 //@ func (*Version).Compare
 //@   comparator v ~ other                                 [C01]
